@@ -15,7 +15,7 @@ a_ == <<97>>  b_ == <<98>>  x_ == <<120>>  y_ == <<121>>  z_ == <<122>>  p_ == <
 S(t) == Str(t)
 DocSeq == <<
   Obj(<<a_, b_, n1_, p_, q_>>,
-      << Obj(<<x_, y_, z_>>, <<IntV(1), Arr(<<IntV(10), IntV(20), IntV(30)>>), Obj(<<p_, q_>>, <<IntV(0), Bool(FALSE)>>)>>),
+      << Obj(<<x_, y_, z_, <<233>>>>, <<IntV(1), Arr(<<IntV(10), IntV(20), IntV(30)>>), Obj(<<p_, q_>>, <<IntV(0), Bool(FALSE)>>), IntV(9)>>),
          Arr(<<Obj(<<x_, y_>>, <<IntV(1), IntV(2)>>), Obj(<<x_, y_>>, <<S(<<>>), Null>>), Arr(<<IntV(5), IntV(6), IntV(7)>>)>>),
          Obj(<<n1_, x_>>, <<S(<<111, 110, 101>>), Arr(<<>>)>>),
          S(<<123, 34, 120, 34, 58, 32, 49, 125>>),         \* the string {"x": 1}: JSON text is still a primitive
@@ -32,7 +32,7 @@ RelQueries == { Q("$", <<Child(SName(x_))>>), Q("$", <<Child(SName(y_))>>), Q("$
                 Q("$", <<Child(SIndex(2)), Child(SIndex(1))>>), Q("$", <<Child(SName(b_))>>), Q("$", <<Child(SName(n1_))>>), Q("$", <<Child(SWild), Child(SName(y_))>>),
                 Q("$", <<Child(SIndex(1)), Child(SName(x_)), Child(SWild), Child(SName(y_))>>), Q("$", <<Child(SName(x_)), Child(SIndex(1))>>),
                 \* negative indices address the same elements as their normalized spelling
-                Q("$", <<Child(SName(y_)), Child(SIndex(-1))>>), Q("$", <<Child(SIndex(-1))>>), Q("$", <<Child(SIndex(-1)), Child(SName(x_))>>) }
+                Q("$", <<Child(SName(<<233>>))>>), Q("$", <<Child(SName(y_)), Child(SIndex(-1))>>), Q("$", <<Child(SIndex(-1))>>), Q("$", <<Child(SIndex(-1)), Child(SName(x_))>>) }
 
 Matches == Eval(mq, DocSeq[d])
 \* selections of one relative query below one match, locations relative to the match
@@ -69,6 +69,6 @@ Terminates == <>Terminal
 
 Out(style) == LET ps == [i \in 1..Len(Matches) |-> Project(style, Matches[i].loc, Matches[i].v, sels[i])] IN SelectSeq(ps, LAMBDA p : p.t # "none")
 Export == (Terminal /\ InUniverse) =>
-   PrintT(ToJson([doc |-> DocSeq[d], match |-> Render(mq, StdStyle), rels |-> [i \in 1..Len(rels) |-> Render(rels[i], [StdStyle EXCEPT !.rootless = (i % 2 = 0)])],
+   PrintT(ToJson([doc |-> DocSeq[d], match |-> Render(mq, StdStyle), rels |-> [i \in 1..Len(rels) |-> Render(rels[i], [StdStyle EXCEPT !.rootless = (i % 2 = 0), !.uni = TRUE])],
                   flat |-> Out("flat"), relative |-> Out("relative"), root |-> Out("root"), nsel |-> [i \in 1..Len(Matches) |-> Len(sels[i])]]))
 =============================================================================
